@@ -12,7 +12,9 @@ RULE = ("cases: byte strings of every length 0..300 (zeros / 0xff / random; thor
         "1023..1025, 10^4 (thorough 10^5, 10^6), random lengths to 2,048 biased to 64k+{0,1,54..57,62,63}, through hash160, double_sha256, hash.ripemd160 and contrib.ripemd160 in each "
         "configuration; murmur3 on every length 0..70 and 255..257, 4095..4097, 65535..65537, 70000 x seeds {0, 1, 2^31, "
         "2^32-1, 2^32, 2^64+5, 0xFBA4C795, random 32- and 70-bit}; Bloom filters of 1..36,000 bytes x 1..50 hash functions x "
-        "tweaks (same list) x 0..12 items of 0..40, 65 bytes through add_item / add_hash160 / add_address / add_spendable. "
+        "tweaks (same list) x 0..12 items of 0..40, 65 bytes through add_item / add_hash160 / add_address / add_spendable, an item "
+        "now and then repeated; fixed grid: every count 1..50 x sizes 1,2,3,5,8,33, and sizes 36,000 / 35,999 / 1 x counts 1,11,50 "
+        "with all four entry points and one element added twice (same and another entry point). "
         "Call HISTORIES (state kept between calls, on reused objects, at class/module level; aliasing of caller-owned buffers): "
         "random programs of 4..14 steps over 1..3 caller-owned bytearrays - hash the buffer itself or an immutable copy through "
         "hash160 / double_sha256 / hash.ripemd160 / contrib.ripemd160 (murmur3 positional and seed= spelling in the murmur shards), "
@@ -21,8 +23,13 @@ RULE = ("cases: byte strings of every length 0..300 (zeros / 0xff / random; thor
         "(None / str / int argument) in between; Bloom histories over 1..3 filters alive together (positional or keyword constructor): "
         "adds through the four entry points interleaved between filters, the public attributes tweak / hash_function_count reassigned "
         "between adds, filter_bytes replaced by a fresh zero array, a failing add (bad-checksum address, None, object without "
-        "tx_hash) in between, elements passed as a bytearray the caller scribbles over afterwards; filter_bytes and "
+        "tx_hash) in between, elements passed as a bytearray the caller scribbles over afterwards; an element the history has "
+        "already added (to this filter or to another one) or one of a per-shard 'wallet' of 7 keys / outpoints shared by all "
+        "histories of the process added again, possibly through another entry point; filter_bytes and "
         "filter_load_params() read at intermediate points and at the end. "
+        "Coverage counters (each required, per RIPEMD-160 configuration where it applies): every operation, lengths 0/55/56/63/64/"
+        "119/120 and residues 0,1,55,56,63 beyond 128 bytes, murmur3 tail classes 0..3 / seed classes / no-full-block with wide seed / "
+        ">= 65,536 bytes, Bloom entry points, tweak classes, counts 1 and 50, sizes 1 and 36,000, repeated elements. "
         "Non-trivial: every case (the empty input is a padding boundary); distinct by (operation, configuration, input / program).")
 ASSUMPTIONS = [
     "hashlib SHA-256 is correct; RIPEMD-160 oracle is hashlib/OpenSSL when present, cross-checked on every run against the "
@@ -34,6 +41,10 @@ ASSUMPTIONS = [
     "the 'OpenSSL without ripemd160' configuration is simulated inside the worker by making hashlib.new('ripemd160') raise "
     "ValueError before pycoin.encoding.hash is imported (as on Ubuntu 22); libsecp/pycrypto paths are absent here",
     "add_spendable's element is tx_hash || uint32-LE index as held by the Spendable (BIP37 outpoint serialisation)",
+    "adding an element a second time (to the same filter, or to another filter alive in the process) sets the positions BIP37 "
+    "prescribes for it in that filter under its current parameters, like the first time",
+    "filter_load_params() may announce the tweak it was given or its reduction mod 2^32 (nTweak is a uint32 on the wire); "
+    "check_bit may answer with any true value",
     "a bytearray is a byte string: its digest is the standard digest of its content at the time of the call",
     "a Bloom filter announces filter_load_params(); an element added while (hash_function_count, tweak) had some value must set "
     "exactly the BIP37 positions for those values (the values a peer is told if the filter is loaded then); when a public "
@@ -41,7 +52,9 @@ ASSUMPTIONS = [
 ]
 EXPLANATION = ("every digest / hash / filter returned by pycoin is compared byte for byte with the reference; in the "
                "pure-Python configurations a tap on pycoin.contrib.ripemd160.ripemd160 must see the calls made through "
-               "hash160 (otherwise the configuration was not exercised and the run is inconclusive); in a history the "
+               "hash160 and through ripemd160(data) (otherwise the configuration was not exercised and the run is inconclusive); "
+               "likewise a tap on hashlib.new must see pycoin obtain RIPEMD-160 objects from hashlib in the native configuration; "
+               "in a history the "
                "reference is evaluated on a snapshot of the caller's buffer taken just before each call and a Bloom model "
                "(one bit set per filter) follows every step")
 TIMEOUT = {"quick": 600, "thorough": 3 * 3600}
@@ -101,11 +114,34 @@ def _simulate_no_native():
     orig = RR._hashlib_new
 
     def new(name, *a, **kw):
-        if str(name).lower() in ("ripemd160", "rmd160", "ripemd"):
+        if str(name).lower() in _RIPEMD_NAMES:
             raise ValueError("unsupported hash type %s" % name)
         return orig(name, *a, **kw)
     hashlib.new = new
     return True
+
+
+_RIPEMD_NAMES = ("ripemd160", "rmd160", "ripemd")
+
+
+def _tap_native(m):
+    """Count the RIPEMD-160 objects pycoin obtains from hashlib (the oracle uses the hashlib.new captured by refs/ripemd160
+    at import, so its own calls are not counted).  Installed before pycoin.encoding.hash is imported."""
+    m.ntap = [0]
+    inner = hashlib.new
+    if getattr(inner, "_c19_tap", None) is not None:          # replay in one process: keep one wrapper, move the counter
+        inner._c19_tap[0] = m.ntap
+        return
+
+    holder = [m.ntap]
+
+    def new(name, *a, **kw):
+        h = inner(name, *a, **kw)
+        if str(name).lower() in _RIPEMD_NAMES:
+            holder[0][0] += 1
+        return h
+    new._c19_tap = holder
+    hashlib.new = new
 
 
 def _imports(config, rec):
@@ -114,16 +150,12 @@ def _imports(config, rec):
     if config == "sim_no_native":
         if not _simulate_no_native():
             raise RuntimeError("pycoin.encoding.hash already imported; cannot simulate a missing native ripemd160")
+    _tap_native(m)
     import importlib
-    st, mod = observe(importlib.import_module, "pycoin.encoding.hash")
-    if st != "ok":
-        rec.ev("import_hash_module")
-        rec.violation("config.%s.hash_module_unusable" % config, {"kind": "import", "config": config}, mod, "importable")
-        return None
-    m.hash = mod
     import pycoin.contrib.ripemd160 as contrib
     m.contrib = contrib
-    # tap: calls that reach the bundled implementation *through pycoin.encoding.hash*
+    # tap: calls that reach the bundled implementation *through pycoin.encoding.hash* (installed before that module is
+    # imported, so that it also sees a `from pycoin.contrib.ripemd160 import ripemd160` spelling)
     m.tap = [0]
     orig = contrib.ripemd160
 
@@ -133,6 +165,12 @@ def _imports(config, rec):
     tapped.__wrapped__ = orig
     contrib.ripemd160 = tapped
     m.contrib_direct = orig
+    st, mod = observe(importlib.import_module, "pycoin.encoding.hash")
+    if st != "ok":
+        rec.ev("import_hash_module")
+        rec.violation("config.%s.hash_module_unusable" % config, {"kind": "import", "config": config}, mod, "importable")
+        return None
+    m.hash = mod
     native = getattr(mod, "ripemd160_native", None)
     m.impl = "native" if (native is not None and mod.ripemd160 is native) else getattr(mod.ripemd160, "__name__", "?")
     rec.ev("impl_in_use:%s:%s" % (config, m.impl))
@@ -146,33 +184,71 @@ def _data(case):
     return (pat * (L // len(pat) + 1))[:L]
 
 
+def _eqb(got, exp):
+    """got is a byte string equal to exp (any bytes-like answer is accepted; a str / int / None answer is a mismatch)."""
+    return isinstance(got, (bytes, bytearray, memoryview)) and bytes(got) == exp
+
+
+_BOUNDARY_RESIDUES = (0, 1, 55, 56, 63)
+
+
+def _len_class(L):
+    """The padding situation of a length, for the coverage counters: the boundaries the property names and 'beyond'."""
+    if L in (0, 55, 56, 63, 64, 119, 120):
+        return "len=%d" % L
+    if L > 128 and L % 64 in _BOUNDARY_RESIDUES:
+        return "len>128,len%%64=%d" % (L % 64)
+    return None
+
+
+def _digest_requirements(cfg):
+    req = ["config:%s:%s" % (cfg, op) for op in ("hash160", "double_sha256", "ripemd160(data).digest()", "contrib.ripemd160.ripemd160")]
+    req += ["config:%s:ripemd160:len=%d" % (cfg, L) for L in (0, 55, 56, 63, 64, 119, 120)]
+    req += ["config:%s:ripemd160:len>128,len%%64=%d" % (cfg, r) for r in _BOUNDARY_RESIDUES]
+    return req
+
+
 def check_digests(case, rec, M, want_pure_check=False):
     d = _data(case)
     cfg = M.config
+    lc = _len_class(len(d))
+    if lc is not None:
+        rec.ev("config:%s:ripemd160:%s" % (cfg, lc))
     rec.case(("digest", cfg, d if len(d) <= 80 else (len(d), case["pattern"][:80])))
     exp_r = RR.digest(d)
     exp_h = RR.hash160(d)
     exp_d = RR.double_sha256(d)
     if want_pure_check and (RR.pure(d) != exp_r or RR.pure(hashlib.sha256(d).digest()) != exp_h):
         raise AssertionError("oracle: from-spec RIPEMD-160 disagrees with hashlib on len %d" % len(d))
-    before = M.tap[0]
+    before, nbefore = M.tap[0], M.ntap[0]
     rec.ev("hash160")
+    rec.ev("config:%s:hash160" % cfg)
     st, got = observe(M.hash.hash160, d)
-    if st != "ok" or bytes(got) != exp_h or len(got) != 20:
+    if st != "ok" or not _eqb(got, exp_h):
         rec.violation("hash160.%s.mismatch" % cfg, case, got, exp_h)
     if M.tap[0] > before:
         rec.ev("tap:contrib.ripemd160.via_hash160:" + cfg)
+    if M.ntap[0] > nbefore:
+        rec.ev("tap:hashlib.ripemd160.via_hash160:" + cfg)
     rec.ev("double_sha256")
+    rec.ev("config:%s:double_sha256" % cfg)
     st, got = observe(M.hash.double_sha256, d)
-    if st != "ok" or bytes(got) != exp_d or len(got) != 32:
+    if st != "ok" or not _eqb(got, exp_d):
         rec.violation("double_sha256.mismatch", case, got, exp_d)
+    before, nbefore = M.tap[0], M.ntap[0]
     rec.ev("ripemd160(data).digest()")
+    rec.ev("config:%s:ripemd160(data).digest()" % cfg)
     st, got = observe(lambda: M.hash.ripemd160(d).digest())
-    if st != "ok" or bytes(got) != exp_r or len(got) != 20:
+    if st != "ok" or not _eqb(got, exp_r):
         rec.violation("ripemd160.%s.mismatch" % cfg + _pad_class(len(d)), case, got, exp_r)
+    if M.tap[0] > before:
+        rec.ev("tap:contrib.ripemd160.via_ripemd160:" + cfg)
+    if M.ntap[0] > nbefore:
+        rec.ev("tap:hashlib.ripemd160.via_ripemd160:" + cfg)
     rec.ev("contrib.ripemd160.ripemd160")
+    rec.ev("config:%s:contrib.ripemd160.ripemd160" % cfg)
     st, got = observe(M.contrib_direct, d)
-    if st != "ok" or bytes(got) != exp_r:
+    if st != "ok" or not _eqb(got, exp_r):
         rec.violation("contrib_ripemd160.mismatch" + _pad_class(len(d)), case, got, exp_r)
 
 
@@ -231,6 +307,12 @@ def check_murmur(data_case, seed, rec, M):
     rec.case(("mm", d if len(d) <= 80 else (len(d), data_case["pattern"][:40]), seed))
     exp = RM.murmur3_32(d, seed)
     rec.ev("murmur3")
+    rec.ev("murmur3.tail%d_bytes" % (len(d) % 4))
+    rec.ev("murmur3.seed_wider_than_32_bits" if seed >> 32 else "murmur3.seed_top_bit_set" if seed >> 31 else "murmur3.seed_31_bits")
+    if len(d) < 4 and seed >> 32:
+        rec.ev("murmur3.no_full_block.seed_wider_than_32_bits")
+    if len(d) >= 65536:
+        rec.ev("murmur3.input_65536_bytes_or_more")
     st, got = observe(M.bloom.murmur3, d, seed)
     if st != "ok" or got != exp or isinstance(got, bool):
         if seed >= (1 << 32) and st == "ok" and observe(M.bloom.murmur3, d, seed & 0xffffffff) == ("ok", exp):
@@ -284,10 +366,42 @@ def run_murmur(spec, rec, M):
 
 # -- bloom ------------------------------------------------------------------------------------
 
+def _bloom_param_events(rec, size, k, tweak):
+    """Coverage counters for the parameter regions the property quantifies over (filters that receive an element)."""
+    rec.ev("BloomFilter.tweak_wider_than_32_bits" if tweak >> 32 else "BloomFilter.tweak_32_bits")
+    if (k - 1) * RM.BIP37_SEED_MUL + tweak >> 32:
+        rec.ev("BloomFilter.seed_i*0xFBA4C795+tweak_exceeds_32_bits")
+    if k == RM.MAX_HASH_FUNCS:
+        rec.ev("BloomFilter.hash_function_count=50")
+    if k == 1:
+        rec.ev("BloomFilter.hash_function_count=1")
+    if size == RM.MAX_BLOOM_FILTER_SIZE:
+        rec.ev("BloomFilter.size=36000")
+    if size == 1:
+        rec.ev("BloomFilter.size=1")
+
+
+_BLOOM_REQUIRED = ["BloomFilter.add_item", "BloomFilter.add_hash160", "BloomFilter.add_address", "BloomFilter.add_spendable",
+                   "BloomFilter.filter_bytes", "BloomFilter.filter_load_params", "BloomFilter.peer_matches_element",
+                   "BloomFilter.tweak_wider_than_32_bits", "BloomFilter.tweak_32_bits",
+                   "BloomFilter.seed_i*0xFBA4C795+tweak_exceeds_32_bits", "BloomFilter.hash_function_count=50",
+                   "BloomFilter.hash_function_count=1", "BloomFilter.size=36000", "BloomFilter.size=1",
+                   "BloomFilter.same_element_added_again"]
+
+
+def _tweak_equal(announced, tweak):
+    """nTweak is a uint32 on the wire: an implementation may keep (and announce) the tweak it was given or its reduction."""
+    return isinstance(announced, int) and not isinstance(announced, bool) and (announced - tweak) & RM.M32 == 0
+
+
 def check_bloom(case, rec, M):
     """case: size, k, tweak, items = list of [how, bytes, index?]."""
     size, k, tweak = case["size"], case["k"], int(case["tweak"])
     rec.case(("bloom", size, k, tweak, tuple((it[0], it[1]) for it in case["items"])))
+    if case["items"]:
+        _bloom_param_events(rec, size, k, tweak)
+        if len(set(_elements(case))) < len(case["items"]):
+            rec.ev("BloomFilter.same_element_added_again")
     st, bf = observe(M.bloom.BloomFilter, size, k, tweak)
     if st != "ok":
         rec.violation("bloom.constructor_raises", case, bf, "filter")
@@ -317,8 +431,11 @@ def check_bloom(case, rec, M):
             rec.violation("bloom.add_raises." + how, case, r, None)
             return
     exp = RM.bip37_filter(elements, size, k, tweak)
-    got = bytes(bf.filter_bytes)
+    st, got = observe(lambda: bytes(bf.filter_bytes))
     rec.ev("BloomFilter.filter_bytes")
+    if st != "ok":
+        rec.violation("bloom.filter_bytes_unreadable", case, got, exp[:64])
+        return
     if got != exp:
         missing = any(e & ~g for e, g in zip(exp, got)) or len(got) != len(exp)
         extra = any(g & ~e for e, g in zip(exp, got))
@@ -326,17 +443,24 @@ def check_bloom(case, rec, M):
         rec.violation(mech, case, got[:64], exp[:64], detail={"set_expected": sum(bin(b).count("1") for b in exp),
                                                               "set_observed": sum(bin(b).count("1") for b in got)})
         return
-    # every element is matched (a peer's contains()) through pycoin's own check_bit as well
+    # every element is matched by a peer (the reference's contains() on the bytes pycoin produced) ...
+    for e in elements[:3]:
+        rec.ev("BloomFilter.peer_matches_element")
+        if not RM.bip37_contains(got, e, k, tweak):
+            rec.violation("bloom.peer_does_not_match_added_element", case, got[:64], exp[:64])
+            return
+    # ... and through pycoin's own check_bit as well (any true value counts)
     for e in elements[:3]:
         for pos in RM.bip37_positions(e, size, k, tweak):
             rec.ev("BloomFilter.check_bit")
-            if bf.check_bit(pos) is not True:
-                rec.violation("bloom.check_bit_false_for_added_element", case, pos, True)
+            st, r = observe(bf.check_bit, pos)
+            if st != "ok" or not r:
+                rec.violation("bloom.check_bit_false_for_added_element", case, r, True)
                 return
-    st, params = observe(bf.filter_load_params)
+    st, params = observe(lambda: tuple(bf.filter_load_params()))
     rec.ev("BloomFilter.filter_load_params")
-    if st != "ok" or bytes(params[0]) != exp or params[1] != k or params[2] != tweak:
-        rec.violation("bloom.filter_load_params_mismatch", case, params if st != "ok" else [params[1], params[2]], [k, tweak])
+    if st != "ok" or len(params) != 3 or not _eqb(params[0], exp) or params[1] != k or not _tweak_equal(params[2], tweak):
+        rec.violation("bloom.filter_load_params_mismatch", case, params if st != "ok" else list(params[1:]), [k, tweak])
 
 
 def _elements(case):
@@ -353,7 +477,9 @@ def _rand_bloom(rng, i):
     items = []
     for _ in range(n_items):
         r = rng.random()
-        if r < 0.55:
+        if items and rng.random() < 0.12:
+            items.append(list(rng.choice(items)))                 # the same element again
+        elif r < 0.55:
             L = rng.choice([0, 1, 2, 3, 4, 5, 6, 7, 20, 32, 33, 36, 65, rng.randrange(0, 41)])
             items.append(["item", bytes(rng.getrandbits(8) for _ in range(L))])
         elif r < 0.7:
@@ -378,6 +504,15 @@ def run_bloom(spec, rec, M):
                             "6b9ab227142ee1d543764b69d901e0")
         check_bloom({"kind": "bloom", "size": 3, "k": 8, "tweak": 0,
                      "items": [["item", pub], ["hash160", bytes.fromhex("477abbacd4113f2e6b100526222eedd953c26a64")]]}, rec, M)
+        # the largest filter BIP37 allows and its neighbour, every entry point; an element added a second time
+        # (same entry point and through another one) sets nothing new
+        h, txh = bytes(range(40, 60)), bytes(range(100, 132))
+        for size, tweak in ((RM.MAX_BLOOM_FILTER_SIZE, 0xdeadbeef), (RM.MAX_BLOOM_FILTER_SIZE, (1 << 40) + 99),
+                            (RM.MAX_BLOOM_FILTER_SIZE - 1, 5), (1, 1 << 32)):
+            for k in (1, 11, RM.MAX_HASH_FUNCS):
+                check_bloom({"kind": "bloom", "size": size, "k": k, "tweak": tweak,
+                             "items": [["item", pub], ["hash160", h], ["address", h, 0], ["spendable", txh, 1],
+                                       ["item", txh + (1).to_bytes(4, "little")], ["item", pub], ["item", b"\x07"]]}, rec, M)
     for i in range(spec["n"]):
         c = _rand_bloom(rng, i)
         check_bloom(c, rec, M)
@@ -446,6 +581,7 @@ def check_history(case, rec, M):
             exp = RR.digest(snap)
             for again in (False, True):
                 rec.ev("history.ripemd160_object.digest_later")
+                rec.ev("config:%s:history.ripemd160_object.digest_later" % M.config)
                 s2, got = (s_, h) if s_ != "ok" else observe(h.digest)
                 if s2 != "ok" or not _same(got, exp, 20):
                     stale = s2 == "ok" and any(_same(got, RR.digest(o), 20) for o in seen if o != snap)
@@ -460,6 +596,8 @@ def check_history(case, rec, M):
             snap = bytes(bufs[slot])
             exp = oracle(snap, seed)
             rec.ev("history.%s.%s" % (fn, "callers_bytearray" if how == "buf" else "bytes"))
+            if case["kind"] == "dhist":
+                rec.ev("config:%s:history.%s" % (M.config, fn))
             s_, got = observe(call, bufs[slot] if how == "buf" else snap, seed)
             if s_ != "ok" or not _same(got, exp, n):
                 stale = s_ == "ok" and any(_same(got, oracle(o, seed), n) for o in seen if o != snap)
@@ -573,12 +711,20 @@ def run_histories(spec, rec, M, kind):
 
 # -- Bloom histories: several filters alive, public attributes reassigned, failing adds ------------
 
+def _step_element(st):
+    """The BIP37 element of an "add" step."""
+    return st[3] + int(st[4]).to_bytes(4, "little") if st[2] == "spendable" else st[3]
+
+
 def _bh_mech(case, upto, f):
     before = case["steps"][:upto + 1]
     if any(s[0] == "attr" and s[1] == f for s in before):
         return "after_param_reassigned"
     if any(s[0] == "clear" and s[1] == f for s in before):
         return "after_filter_bytes_replaced"
+    mine = set(_step_element(s) for s in before if s[0] == "add" and s[1] == f)
+    if any(s[0] == "add" and s[1] != f and _step_element(s) in mine for s in before):
+        return "element_also_added_to_other_filter"
     if any(s[0] == "make" and s[1] != f for s in before):
         return "other_filter_alive"
     if any(s[0] == "bad" for s in before):
@@ -593,6 +739,7 @@ def check_bloom_history(case, rec, M):
     ["attr", f, "tweak"|"hash_function_count", value] | ["clear", f] | ["bad", f, how] | ["check", f]."""
     rec.case(("bhist", repr(case["filters"]), repr(case["steps"])))
     live, model = {}, {}
+    where = {}                                                    # element -> filters it was added to
 
     def verify(i, f):
         bf, m = live[f], model[f]
@@ -607,10 +754,11 @@ def check_bloom_history(case, rec, M):
                           got[:64] if s_ == "ok" else got, exp[:64], detail={"filter": f, "step": i})
             return False
         rec.ev("history.BloomFilter.filter_load_params")
-        s_, params = observe(bf.filter_load_params)
-        if s_ != "ok" or bytes(params[0]) != exp or params[1] != m["k"] or params[2] != m["tweak"]:
+        s_, params = observe(lambda: tuple(bf.filter_load_params()))
+        if (s_ != "ok" or len(params) != 3 or not _eqb(params[0], exp) or params[1] != m["k"]
+                or not _tweak_equal(params[2], m["tweak"])):
             rec.violation("bloom.history.filter_load_params_mismatch." + _bh_mech(case, i, f), case,
-                          params if s_ != "ok" else [params[1], params[2]], [m["k"], m["tweak"]], detail={"filter": f, "step": i})
+                          params if s_ != "ok" else list(params[1:]), [m["k"], m["tweak"]], detail={"filter": f, "step": i})
             return False
         return True
 
@@ -652,6 +800,14 @@ def check_bloom_history(case, rec, M):
                 return
             for pos in RM.bip37_positions(element, m["size"], m["k"], m["tweak"]):
                 m["bits"][pos >> 3] |= 1 << (pos & 7)
+            fs = where.setdefault(element, set())
+            if f in fs:
+                rec.ev("history.BloomFilter.element_added_again_to_same_filter")
+            if fs - {f}:
+                rec.ev("history.BloomFilter.element_already_in_another_filter")
+            fs.add(f)
+            if case.get("wallet") and element in case["wallet"]:
+                rec.ev("history.BloomFilter.wallet_element_shared_between_histories")
         elif op == "attr":
             name, value = st[2], int(st[3])
             rec.ev("history.BloomFilter.%s_reassigned" % name)
@@ -690,8 +846,23 @@ def check_bloom_history(case, rec, M):
             return
 
 
-def _rand_item(rng):
+def _rand_item(rng, used=None, wallet=None):
     r = rng.random()
+    if used is not None:
+        q = rng.random()
+        if used and q < 0.22:                                     # an element this history has added before (any filter)
+            how, data, extra, _ = rng.choice(used)
+            it = [how, data, extra, how in ("item", "hash160") and rng.random() < 0.35]
+            used.append(it)
+            return it
+        if wallet and q < 0.34:                                   # a wallet's key / outpoint: goes into every filter it builds
+            how, data, extra = rng.choice(wallet)
+            it = [how, data, extra, how in ("item", "hash160") and rng.random() < 0.35]
+            used.append(it)
+            return it
+        it = _rand_item(rng)
+        used.append(it)
+        return it
     if r < 0.55:
         L = rng.choice([0, 1, 2, 3, 4, 5, 6, 7, 20, 32, 33, 36, 65, rng.randrange(0, 41)])
         return ["item", _rb(rng, L), None, rng.random() < 0.35]
@@ -710,7 +881,20 @@ def _rand_tweak(rng):
     return rng.choice(SEEDS + [127, 2147483649, rng.getrandbits(32), rng.getrandbits(32), rng.getrandbits(66) | (1 << 65)])
 
 
-def _rand_bhist(rng):
+def _rand_wallet(rng):
+    """A few elements a wallet puts into every filter it builds (one filter per peer connection, rebuilt when it fills up)."""
+    w = []
+    for _ in range(3):
+        w.append([rng.choice(["hash160", "address", "item"]), _rb(rng, 20), 0])
+    for _ in range(2):
+        w.append(["spendable", _rb(rng, 32), rng.choice([0, 1, 7])])
+    w.append(["item", _rb(rng, 33), None])
+    w.append(["item", _rb(rng, 36), None])
+    return w
+
+
+def _rand_bhist(rng, wallet=None):
+    used = []
     nf = rng.choice([1, 1, 2, 2, 3])
     filters = []
     for _ in range(nf):
@@ -727,14 +911,14 @@ def _rand_bhist(rng):
             steps.append(["make", made])
             made += 1
         elif r < 0.62:
-            steps.append(["add", f] + _rand_item(rng))
+            steps.append(["add", f] + _rand_item(rng, used, wallet))
         elif r < 0.8:
             if rng.random() < 0.5:
                 steps.append(["attr", f, "tweak", _rand_tweak(rng)])
             else:
                 steps.append(["attr", f, "hash_function_count", _rand_k(rng)])
             if rng.random() < 0.8:
-                steps.append(["add", f] + _rand_item(rng))
+                steps.append(["add", f] + _rand_item(rng, used, wallet))
         elif r < 0.85:
             steps.append(["clear", f])
         elif r < 0.92:
@@ -742,14 +926,18 @@ def _rand_bhist(rng):
         else:
             steps.append(["check", f])
     if not any(s[0] == "add" for s in steps):
-        steps.append(["add", rng.randrange(made)] + _rand_item(rng))
-    return {"kind": "bhist", "filters": filters, "steps": steps}
+        steps.append(["add", rng.randrange(made)] + _rand_item(rng, used, wallet))
+    c = {"kind": "bhist", "filters": filters, "steps": steps}
+    if wallet:
+        c["wallet"] = [_step_element(["add", 0] + w) for w in wallet]
+    return c
 
 
 def run_bloom_histories(spec, rec, M):
     rng = shard_rng(spec["seed"], PROPERTY, spec["tier"], spec["shard"], salt="hist")
+    wallet = _rand_wallet(rng)
     for i in range(spec.get("n_hist", 0)):
-        c = _rand_bhist(rng)
+        c = _rand_bhist(rng, wallet)
         check_bloom_history(c, rec, M)
         if i == 0 and spec["part"] == 0:
             rec.sample({"op": "BloomFilter history", "filters": c["filters"], "steps": c["steps"]})
@@ -774,27 +962,47 @@ def run_shard(spec, rec):
         M = _imports(spec["config"], rec)
         if M is None:
             return
-        if spec["config"] in ("python", "sim_no_native"):
-            # the configuration counts as exercised only if hash160 really went through the bundled implementation
-            rec.require("tap:contrib.ripemd160.via_hash160:" + spec["config"])
+        cfg = spec["config"]
+        if cfg in ("python", "sim_no_native"):
+            # the configuration counts as exercised only if hash160 and ripemd160(data) really went through the bundled implementation
+            rec.require("tap:contrib.ripemd160.via_hash160:" + cfg, "tap:contrib.ripemd160.via_ripemd160:" + cfg)
+        elif RR.native_available():
+            # ... and the native one only if pycoin really obtained its RIPEMD-160 objects from hashlib
+            rec.require("tap:hashlib.ripemd160.via_hash160:" + cfg, "tap:hashlib.ripemd160.via_ripemd160:" + cfg)
+        else:
+            rec.note("this interpreter has no native RIPEMD-160: the 'native' configuration runs the fallback")
+        # every operation and every padding boundary the property names, in THIS configuration (counters are summed over shards)
+        rec.require(*_digest_requirements(cfg))
         run_digests(spec, rec, M)
         if spec.get("n_hist"):
-            rec.require("history.ripemd160.callers_bytearray", "history.ripemd160_object.digest_later")
+            rec.require("history.ripemd160_object.digest_later", "config:%s:history.ripemd160_object.digest_later" % cfg,
+                        *["config:%s:history.%s" % (cfg, f) for f in ("ripemd160", "hash160", "double_sha256", "contrib")])
+            rec.require(
+                        *["history.%s.%s" % (f, how) for f in ("ripemd160", "hash160", "double_sha256", "contrib")
+                          for how in ("callers_bytearray", "bytes")])
             run_histories(spec, rec, M, "dhist")
     elif kind == "murmur":
-        rec.require("murmur3")
+        rec.require("murmur3", "murmur3.default_seed", "murmur3.seed_wider_than_32_bits", "murmur3.seed_top_bit_set",
+                    "murmur3.seed_31_bits", "murmur3.no_full_block.seed_wider_than_32_bits", "murmur3.input_65536_bytes_or_more",
+                    *["murmur3.tail%d_bytes" % t for t in range(4)])
         M = _bloom_imports(rec)
         run_murmur(spec, rec, M)
         if spec.get("n_hist"):
-            rec.require("history.murmur3.callers_bytearray", "history.murmur3_kw.bytes")
+            rec.require(*["history.%s.%s" % (f, how) for f in ("murmur3", "murmur3_kw") for how in ("callers_bytearray", "bytes")])
             run_histories(spec, rec, M, "mhist")
     else:
-        rec.require("BloomFilter.add_item", "BloomFilter.filter_bytes")
+        rec.require(*_BLOOM_REQUIRED)
         M = _bloom_imports(rec)
         run_bloom(spec, rec, M)
         if spec.get("n_hist"):
             rec.require("history.BloomFilter.tweak_reassigned", "history.BloomFilter.hash_function_count_reassigned",
-                        "history.BloomFilter.filter_bytes")
+                        "history.BloomFilter.filter_bytes", "history.BloomFilter.filter_load_params",
+                        "history.BloomFilter.filter_bytes_replaced", "history.BloomFilter.failing_add",
+                        "history.BloomFilter.callers_buffer_overwritten_after_add",
+                        "history.BloomFilter.element_added_again_to_same_filter",
+                        "history.BloomFilter.element_already_in_another_filter",
+                        "history.BloomFilter.wallet_element_shared_between_histories",
+                        *["history.BloomFilter.add_" + h for h in ("item", "hash160", "address", "spendable")])
             run_bloom_histories(spec, rec, M)
 
 
